@@ -149,3 +149,8 @@ Proof.
   - apply (names_ok_one_setting _ cf0). intros k Hk. apply keys_of_In_inv in Hk. destruct Hk as (run & Hr & E).
     rewrite E. apply Hs, Hr.
 Qed.
+
+(* getAllele(reads): the returned set is the same pure fold over answers that equal the specification's *)
+Theorem get_allele_spec v h : vcf_ok v = true -> hist_ok h = true ->
+  map alleles_of (snd (run_history v [] h)) = map (fun run => alleles_of (spec_run v run)) h.
+Proof. intros Hv Hh. rewrite (history_spec v h Hv Hh), map_map. reflexivity. Qed.
